@@ -112,6 +112,8 @@ OPTION_SETS = [
     [], ["--keep_prep"], ["--drop_globals"], ["-O", "drop"], ["-F", "X"], ["-F", "C"],
     ["-C", "power_ts4", "coll_bw", "rcu_util"], ["--flow"], ["-M"], ["--comm_summarize_seq"], ["-t"],
     ["--disable_tb"], ["--power-stats"], ["-c", "$COMPLOG"], ["--event_filter", "name:hostop_a,args.usr_note:^h0$"],
+    # an attribute that differs between slices of one name on one lane: the verdict is per slice, not per kind of slice
+    ["--event_filter", "args.uid:x[0-3]$"],
     ["--event_limit", "$WINDOW"], ["--drop_globals", "--keep_prep", "--flow"], ["-k"], ["--time_unit", "ms"],
     ["-C", "power_ts3", "prep_queue"], ["-C"], ["-O", "drop", "--keep_prep"], ["-O", "shift"], ["-O", "warn"],
 ]
